@@ -747,3 +747,117 @@ Proof.
   apply qsum_Forall2, Forall2_firstn, Forall2_skipn, zipmul_Forall2.
   apply (dispatch_bins cum (prev :: p1 ++ r1 ++ r2) ps Ha).
 Qed.
+
+(* ------------------------------------------------------------------ *)
+(* 8. stored patch radii: the radius measured around the STORED centre covers the patch, is the
+      least such radius, and makes the pruning sound without any hypothesis on where the data sit
+      relative to the centre; a radius measured around another point (e.g. the mean of the data
+      while the given centre is stored) is refuted *)
+Lemma qmax_list_le l r : 0 <= r -> (forall x, In x l -> x <= r) -> qmax_list l <= r.
+Proof.
+  intros Hr. induction l as [|y l IH]; intros H; simpl; [exact Hr|].
+  unfold qmax, Qleb. destruct (Qle_bool y (qmax_list l)) eqn:E.
+  - apply IH. intros x Hx. apply H. right. exact Hx.
+  - apply H. left. reflexivity.
+Qed.
+Lemma qmax_list_nonneg l : 0 <= qmax_list l.
+Proof.
+  induction l as [|y l IH]; simpl; [apply Qle_refl|].
+  eapply Qle_trans; [exact IH|apply qmax_ge_r].
+Qed.
+
+Section Radius.
+  Context {P : Type} (ang : P -> P -> Q).
+  Context (ang_sym : forall a b, ang a b == ang b a)
+          (ang_tri : forall a b c, ang a c <= ang a b + ang b c).
+
+  Theorem radius_of_covers c (A : list (P * Q)) a : In a A -> ang (fst a) c <= radius_of ang c A.
+  Proof.
+    intros Ha. unfold radius_of. apply qmax_list_ge.
+    apply (in_map (fun a => ang (fst a) c)). exact Ha.
+  Qed.
+
+  Theorem radius_of_least c (A : list (P * Q)) r :
+    0 <= r -> (forall a, In a A -> ang (fst a) c <= r) -> radius_of ang c A <= r.
+  Proof.
+    intros Hr H. unfold radius_of. apply qmax_list_le; [exact Hr|].
+    intros x Hx. apply in_map_iff in Hx as [a [<- Ha]]. apply H. exact Ha.
+  Qed.
+
+  Theorem extent_covers c (cats : list (P * list (P * Q))) c' A a :
+    In (c', A) cats -> In a A -> ang (fst a) c <= extent_of ang c cats.
+  Proof.
+    intros Hc Ha. unfold extent_of.
+    eapply Qle_trans; [apply (ang_tri (fst a) c' c)|].
+    eapply Qle_trans; [|apply qmax_list_ge;
+      apply (in_map (fun cA => radius_of ang (fst cA) (snd cA) + ang c (fst cA))); exact Hc].
+    simpl. apply Qplus_le_compat; [apply radius_of_covers; exact Ha|].
+    rewrite (ang_sym c' c). apply Qle_refl.
+  Qed.
+
+  Theorem prune_sound_stored_radii ci cj (catsi catsj : list (P * list (P * Q))) c1 c2 A B M lo hi :
+    In (c1, A) catsi -> In (c2, B) catsj ->
+    ~ (ang ci cj <= extent_of ang ci catsi + extent_of ang cj catsj + M) -> hi <= M ->
+    w_in lo hi (pairs_of ang A B) == 0.
+  Proof.
+    intros HA HB Hun Hhi.
+    apply (prune_sound_le ang ang_sym ang_tri ci cj (extent_of ang ci catsi) (extent_of ang cj catsj) M lo hi A B);
+      try assumption.
+    - intros a Ha. eapply extent_covers; eassumption.
+    - intros b Hb. eapply extent_covers; eassumption.
+  Qed.
+End Radius.
+
+Theorem prune_offcentre_radius_refuted :
+  exists (ang : Q -> Q -> Q) ci cj mi mj M lo hi (A B : list (Q * Q)),
+    (forall a b, ang a b == ang b a) /\ (forall a b c, ang a c <= ang a b + ang b c) /\
+    (forall a, In a A -> ang (fst a) ci <= ang (fst a) cj) /\
+    (forall b, In b B -> ang (fst b) cj <= ang (fst b) ci) /\
+    ~ (ang ci cj <= radius_of ang mi A + radius_of ang mj B + M) /\ hi <= M /\
+    ~ w_in lo hi (pairs_of ang A B) == 0.
+Proof.
+  exists (fun a b => Qabs (a - b)), 0, 10, 4, 6, 3, 0, 3, [(4, 1)], [(6, 1)].
+  split; [|split; [|split; [|split; [|split; [|split]]]]].
+  - intros a b. setoid_replace (a - b) with (- (b - a)) by ring. apply Qabs_opp.
+  - intros a b c. setoid_replace (a - c) with ((a - b) + (b - c)) by ring. apply Qabs_triangle.
+  - intros a [<-|[]]. vm_compute. discriminate.
+  - intros b [<-|[]]. vm_compute. discriminate.
+  - vm_compute. intro H. apply H. reflexivity.
+  - vm_compute. discriminate.
+  - vm_compute. intro H. discriminate.
+Qed.
+
+Lemma covered_spec c t A : covered c t A = true <-> forall o, In o A -> dist2 o c <= t.
+Proof.
+  unfold covered. rewrite forallb_forall. split; intros H o Ho.
+  - apply Qle_bool_iff. apply (H o Ho).
+  - apply Qle_bool_iff. apply (H o Ho).
+Qed.
+Theorem radius2_covers c A : covered c (radius2 c A) A = true.
+Proof.
+  apply covered_spec. intros o Ho. unfold radius2. apply qmax_list_ge.
+  apply (in_map (fun o => dist2 o c)). exact Ho.
+Qed.
+Theorem covered_mono c t t' A : t <= t' -> covered c t A = true -> covered c t' A = true.
+Proof.
+  intros Ht H. apply covered_spec. intros o Ho. eapply Qle_trans; [|exact Ht].
+  apply (proj1 (covered_spec c t A) H o Ho).
+Qed.
+(* a passing coverage case: every object of every patch lies within the upper threshold *)
+Theorem cover_case_sound C cens tlo thi i o :
+  c01_cover_case C cens tlo thi = 0%nat -> (i < length cens)%nat -> In o (sel C i None) ->
+  dist2 o (nth i cens obj_origin) <= nth i thi 0.
+Proof.
+  unfold c01_cover_case, code. simpl. intros H Hi Ho.
+  match type of H with (?a + (?b + 0))%nat = _ =>
+    assert (Hb : b = 0%nat) by lia end.
+  match type of Hb with (if ?f then _ else _) = _ => destruct f eqn:E; [|discriminate] end.
+  rewrite forallb_forall in E. specialize (E i). rewrite in_seq in E.
+  assert (Hc := E ltac:(lia)). simpl in Hc.
+  apply (proj1 (covered_spec _ _ _) Hc o Ho).
+Qed.
+Example cover_concrete :
+  let o := fun x p => {| ox := x; oy := 0; oz := 0; ow := 1; obin := 1; opatch := p |} in
+  c01_cover_case [o 3%Z 0%nat; o 4%Z 0%nat; o 6%Z 1%nat] [o 0%Z 0%nat; o 10%Z 1%nat] [16; 16] [16; 16] = 0%nat /\
+  c01_cover_case [o 3%Z 0%nat; o 4%Z 0%nat; o 6%Z 1%nat] [o 0%Z 0%nat; o 10%Z 1%nat] [0; 0] [1; 0] = 3%nat.
+Proof. vm_compute. split; reflexivity. Qed.
